@@ -385,25 +385,98 @@ fn leave(mut a: Actor, rng: &mut Rng, exits: &mut BTreeSet<String>, rep: &Report
     name.to_string()
 }
 
+/// One pgcat instance observed across a statistics period boundary (the collector ticks every
+/// 15 s and resets the per-period counters): totals, including errors, must not go down.
+fn across_stats_period(seed: u64, rep: &Report) -> Result<(), String> {
+    let (mut cell, mut cfg) = simple_cell(&["primary"], 1, "transaction");
+    cfg.gset("connect_timeout", "300");
+    cell.start_pgcat(&cfg, &StartOpts::default()).map_err(|e| format!("start: {:?}", e))?;
+    let t_spawn = cell.pg().t_spawn;
+    let addr = cell.addr();
+    let mut adm = cell.pg().admin().map_err(|e| format!("admin: {}", e))?;
+    let mut a = Conn::connect(&addr, &StartupOpts::new(USER, "db", PASS).app("pa")).map_err(|e| e.to_string())?;
+    let mut b = Conn::connect(&addr, &StartupOpts::new(USER, "db", PASS).app("pb")).map_err(|e| e.to_string())?;
+    let mut rng = Rng::new(seed);
+    let mut qn = 0;
+    let mut totals_before: BTreeMap<String, i64> = BTreeMap::new();
+    // traffic + checkout failures (B cannot get the only server while A's transaction is open)
+    for _ in 0..rng.range(2, 4) {
+        qn += 1;
+        let _ = a.query(&format!("BEGIN {}", tag("pa", &format!("pa.q{}", qn), "")), 5000);
+        qn += 1;
+        let r = b.query(&format!("SELECT 1 {}", tag("pb", &format!("pb.q{}", qn), "rows=1")), 5000);
+        if r.is_err() {
+            b = Conn::connect(&addr, &StartupOpts::new(USER, "db", PASS).app("pb")).map_err(|e| e.to_string())?;
+        }
+        qn += 1;
+        let _ = a.query(&format!("COMMIT {}", tag("pa", &format!("pa.q{}", qn), "")), 5000);
+        qn += 1;
+        let _ = b.query(&format!("SELECT 1 {}", tag("pb", &format!("pb.q{}", qn), "rows=1")), 5000);
+    }
+    let read_totals = |adm: &mut Conn| -> Result<BTreeMap<String, i64>, String> {
+        let mut m = BTreeMap::new();
+        for r in admin_rows(adm, "SHOW STATS")? {
+            if r.get("database").map(|d| d.as_str()) == Some("db") || r.get("instance").is_some() {
+                for (k, v) in &r {
+                    if k.starts_with("total_") {
+                        *m.entry(k.clone()).or_insert(0) += v.parse::<i64>().unwrap_or(0);
+                    }
+                }
+            }
+        }
+        Ok(m)
+    };
+    sleep_ms(50);
+    for (k, v) in read_totals(&mut adm)? {
+        totals_before.insert(k, v);
+    }
+    if totals_before.get("total_errors").copied().unwrap_or(0) == 0 {
+        return Err(format!("no error was counted before the period boundary: {:?}", totals_before));
+    }
+    // wait for the collector's next tick (15 s after start) with the server connection still pooled
+    let boundary = t_spawn + 15_600_000_000;
+    while crate::util::now_ns() < boundary {
+        sleep_ms(50);
+    }
+    let after = read_totals(&mut adm)?;
+    rep.count("stats_period_boundaries_crossed", 1);
+    for (k, p) in &totals_before {
+        let v = after.get(k).copied().unwrap_or(0);
+        if v < *p {
+            rep.violation(
+                &format!("C18|total_decreased|column={}", k),
+                &format!("{} went from {} to {} across a statistics period boundary (no client or server had left)", k, p, v),
+                json!({"seed": seed, "before": totals_before, "after": after}),
+            );
+        }
+    }
+    a.terminate();
+    b.terminate();
+    Ok(())
+}
+
 pub fn run(tier: &str) -> i32 {
     let rep = Report::new(
         "C18",
         tier,
         "exploration",
-        "scenario = 3-7 phases of joins, failed logins, generated transactions (all protocols), pool-exhaustion checkout failures and departures by Terminate / FIN / RST / FIN mid-transaction / malformed message (decoder panic) idle or mid-transaction; after each phase a quiescent point (two identical consecutive admin samples); oracle = SHOW CLIENTS/POOLS/SERVERS/LISTS/STATS vs the harness ledger of connected clients and the mock's counters of client transactions and requests; totals monotone; distinct = scenario seeds",
+        "scenario = 3-7 phases of joins, failed logins, generated transactions (all protocols), pool-exhaustion checkout failures and departures by Terminate / FIN / RST / FIN mid-transaction / malformed message (decoder panic) idle or mid-transaction; after each phase a quiescent point (two identical consecutive admin samples); oracle = SHOW CLIENTS/POOLS/SERVERS/LISTS/STATS vs the harness ledger of connected clients and the mock's counters of client transactions and requests; totals monotone, also across the collector's 15 s statistics-period boundary (dedicated long-lived instances); distinct = scenario seeds",
     );
     rep.assume("statement caching off so that every batch reaches the server; comparisons only at quiescent points (counters are deliberately unsynchronised)");
     let thorough = rep.thorough();
     let n = if thorough { 800 } else { 64 };
     let mut rng = Rng::new(rep.seed ^ 0xC18);
     let seeds: Vec<u64> = (0..n).map(|_| rng.next()).collect();
-    run_parallel(n, workers(), |i| {
+    // a few instances live across a statistics-period boundary (16 s each, run alongside the rest)
+    let n_long = if thorough { 8 } else { 2 };
+    run_parallel(n + n_long, workers(), |i| {
         rep.eval(1);
-        if let Err(e) = scenario(seeds[i], &rep) {
+        let r = if i < n_long { across_stats_period(seeds[i] ^ 0x15, &rep) } else { scenario(seeds[i - n_long], &rep) };
+        if let Err(e) = r {
             rep.inconclusive(&e);
         }
     });
-    rep.finish(&[("quiescent_points", 100), ("client_rows_checked", 300), ("all_gone_points", 20)])
+    rep.finish(&[("quiescent_points", 100), ("client_rows_checked", 300), ("all_gone_points", 20), ("stats_period_boundaries_crossed", 1)])
 }
 
 /// Diagnostic: which transaction kinds make pgcat's totals differ from the backend's counts.
